@@ -276,6 +276,38 @@ func c06DenyRouteSubset(lists []c06Deny) []int {
 	return out
 }
 
+// The enumerated deny lists are put in force by assigning the configuration field between calls.
+// That only works while the code reads the field at call time: the key that the configuration
+// file denies (loaded through the YAML path) must be refused under that list and let in once the
+// field is emptied.  If emptying the field changes nothing the sweeps are skipped (and said so).
+func c06DenyAssignable(p *c06Prober) bool {
+	for si := range p.shapes {
+		s := &p.shapes[si]
+		if s.name != "cert-km-denied-key" {
+			continue
+		}
+		try := func(dl int) bool {
+			p.setDeny(dl)
+			defer p.setDeny(0)
+			req := verifNewRequest("GET", "/probe", nil)
+			s.apply(req)
+			ai, err := p.env.state.checkAuth(httptest.NewRecorder(), req, AuthTypeKeymasterX509)
+			return err == nil && ai != nil
+		}
+		empty := -1
+		for i, d := range p.denies {
+			if len(d.ids) == 0 {
+				empty = i
+			}
+		}
+		if empty < 0 {
+			return true
+		}
+		return try(0) || try(empty)
+	}
+	return true
+}
+
 func (p *c06Prober) setDeny(i int) {
 	p.deny = i
 	p.env.state.Config.DenyTrustData.KeyDenyFPsshSha256 = append([]string(nil), p.denies[i].fps...)
@@ -873,6 +905,7 @@ type c06Prober struct {
 	okta      bool
 	denies    []c06Deny
 	deny      int // index of the deny list in force
+	denySweeps bool
 }
 
 func (p *c06Prober) tableRows() (rows [2][][]interface{}, digest string) {
@@ -1343,6 +1376,7 @@ func TestVerif_C06(t *testing.T) {
 		{name: "D", webui: []string{"U2F"}, routes: webuiRoutes, reduced: true, combos: true},
 	}
 	var webuiCases []string
+	denySweeps := true
 	var shapeCoq []string
 	var gateCases, gateIdx []string
 	var groups, routeIdx []string
@@ -1377,6 +1411,12 @@ func TestVerif_C06(t *testing.T) {
 		p.seedProfiles()
 		p.cliToken, _ = env.state.generateAuthJWT("alice")
 		p.shapes = c06Shapes(env, mat)
+		if ci == 0 && !c06DenyAssignable(p) {
+			denySweeps = false
+			res.hit(verifHit{Key: "C06:harness:deny-list-not-assignable", Oracle: "harness", Kind: "harness",
+				What: "assigning Config.DenyTrustData.KeyDenyFPsshSha256 between requests has no effect (the deny list is no longer read at request time): the enumerated deny lists cannot be put in force; only the list of the configuration file was exercised"})
+		}
+		p.denySweeps = denySweeps
 		if ci == 0 {
 			for _, s := range p.shapes {
 				shapeCoq = append(shapeCoq, fmt.Sprintf("(%s, %s) (* %s *)", s.tls, s.cred, s.name))
@@ -1530,7 +1570,7 @@ func TestVerif_C06(t *testing.T) {
 				}
 				// deny lists of every length with the presented key at every position, on the routes
 				// that take keymaster certificates
-				if s.denySweep && cfg.name == "A" && gate.kind == "mask" && (gate.mask == "any" || gate.mask == "webui+x509") {
+				if p.denySweeps && s.denySweep && cfg.name == "A" && gate.kind == "mask" && (gate.mask == "any" || gate.mask == "webui+x509") {
 					lists := denyRoutes
 					if thorough {
 						lists = nil
@@ -1861,7 +1901,7 @@ func c06GateCases(p *c06Prober, thorough bool, cases, idx *[]string) {
 				call(si, mask, "POST", 0, 0)
 				call(si, mask, "POST", 3, 0)
 			}
-			if s.hasTLS && s.kmCert && (thorough || s.cookieValid) {
+			if p.denySweeps && s.hasTLS && s.kmCert && (thorough || s.cookieValid) {
 				// a few combinations under the deny lists too
 				for dl := 1; dl < len(p.denies); dl++ {
 					if thorough || dl%4 == 1 {
@@ -1883,7 +1923,7 @@ func c06GateCases(p *c06Prober, thorough bool, cases, idx *[]string) {
 				}
 			}
 		}
-		if s.denySweep || (s.hasTLS && s.kmCert) {
+		if p.denySweeps && (s.denySweep || (s.hasTLS && s.kmCert)) {
 			// every deny list of the enumeration (length 0..4, the presented key at every position)
 			for dl := 1; dl < len(p.denies); dl++ {
 				for _, mask := range denyMasks {
